@@ -91,7 +91,20 @@ class C19(Check):
         scanned_dirs = sorted({uni.file_of(k).rsplit("/", 1)[0] for k in uni.defs} | {x["dir"] for x in ws["roots"]})
         is_rn = scn["reads"][0]["op"] == "rn"
         tdir = scn["reads"][0]["root"]["p"] if is_rn else None
-        if rng.random() < 0.17 and closure:
+        case_target = None
+        if rng.random() < 0.12 and closure and out_keys:
+            # an error *inside* the closure that mentions an out-of-closure definition by name only: a reference that differs
+            # from an existing name by letter case is rejected from the file names alone; the look-alike's text is never needed
+            k = rng.choice(sorted(closure))
+            x = uni.defs[rng.choice(out_keys)]
+            comps = x["name"].split(".")
+            alt = comps[-1].swapcase()
+            if alt != comps[-1] and not T.is_service(x):
+                sec0 = uni.defs[k]["secs"][0]
+                sec0["items"].append(["raw", "%s.%d.%d case_ref_field" % (".".join(comps[:-1] + [alt]), x["ver"][0], x["ver"][1]), []])
+                scn["closure_error"] = "case_ref"
+                case_target = T.def_key(x)
+        elif rng.random() < 0.17 and closure:
             k = rng.choice(sorted(closure))
             name = rng.choice(["assert_false", "bad_width", "undefined_type", "no_seal", "const_range", "garbage", "union_one"])
             scn["pre"].append({"op": "write", "path": uni.file_of(k), "text": F.TEXT_FAULTS[name], "kind": "closure:" + name})
@@ -101,7 +114,7 @@ class C19(Check):
             for _ in range(n):
                 r0 = rng.random()
                 if out_keys and r0 < 0.5:
-                    k = rng.choice(out_keys)
+                    k = case_target if (case_target and rng.random() < 0.7) else rng.choice(out_keys)
                     name, text = F.pick_text_fault(rng)
                     edits.append({"op": "write", "path": uni.file_of(k), "text": text, "kind": "replace:" + name})
                 elif r0 < 0.62 and pure_targets:
@@ -188,7 +201,7 @@ class C19(Check):
             target_files = {uni.file_of(k0) for k0 in targets}
             is_rn = scn["reads"][0]["op"] == "rn"
             tdir = scn["reads"][0]["root"]["p"] if is_rn else None
-            closure_err = False
+            closure_err = bool(scn.get("closure_error"))
             for e in scn.get("pre", []):
                 if e["path"] not in closure_files:
                     raise InvalidScenario("pre-edit outside the closure")
